@@ -120,4 +120,166 @@ theorem walk_eq_sorted {locks : List Lock} {refs : Refs} (h : RefsOk locks refs)
   exact getLocksFromIterator_ids hn _
     (fun l hl => (List.mem_filter.1 ((sortBy_perm _ _).mem_iff.1 hl)).1)
 
+/-! ### the range of every walk the keeper's queries do -/
+
+set_option linter.unusedSimpArgs false
+
+
+/-- the range of a walk `q` inside (Q, F, a, d): the locks satisfying `P`, each under its key `key l` -/
+structure RangeOf (Q F a d : Nat) (q : RefK → Bool) (key : Lock → Nat) (P : Lock → Bool) : Prop where
+  inside : ∀ r, q r = true → qAll Q F a d r = true
+  only : ∀ l r, r ∈ lockRefs l → q r = true → P l = true ∧ r = (Q, F, a, d, key l, l.id)
+  all : ∀ l, P l = true → (Q, F, a, d, key l, l.id) ∈ lockRefs l ∧ q (Q, F, a, d, key l, l.id) = true
+
+macro "ref_range" : tactic => `(tactic|
+  (refine ⟨fun r hq => ?_, fun l r hr hq => ?_, fun l hP => ?_⟩
+   · simp_all [qAll, qBefore, qAfter, qLonger]
+   · obtain ⟨id, ow, du, et, dn, am, gh⟩ := l
+     cases et <;>
+     · simp only [lockRefs, refKeysOf, lockRefKeys, durationLockRefKeys, Lock.isUnlocking, Option.isSome,
+         List.map_cons, List.map_nil, List.mem_cons, List.cons_append, List.nil_append, List.not_mem_nil, or_false, mkRef,
+         if_true, if_false, Bool.false_eq_true] at hr
+       rcases hr with rfl | rfl | rfl | rfl | rfl | rfl | rfl | rfl <;>
+         simp_all [qAll, qBefore, qAfter, qLonger, timeKey, matured, queueOf, fDur, fAccDur, fDenomDur, fAccDenomDur, fTime,
+           fAccTime, fDenomTime, fAccDenomTime, Lock.isUnlocking] <;> (try omega)
+   · obtain ⟨id, ow, du, et, dn, am, gh⟩ := l
+     cases et <;>
+       simp_all [lockRefs, refKeysOf, lockRefKeys, durationLockRefKeys, Lock.isUnlocking, mkRef, qAll, qBefore, qAfter,
+         qLonger, timeKey, matured, queueOf, fDur, fAccDur, fDenomDur, fAccDenomDur, fTime, fAccTime, fDenomTime,
+         fAccDenomTime] <;> (try omega)))
+
+theorem range_dur (u : Bool) : RangeOf (queueOf u) fDur 0 0 (qAll (queueOf u) fDur 0 0) (·.duration)
+    (fun l => l.isUnlocking == u) := by
+  cases u <;> ref_range
+
+theorem range_accDur (u : Bool) (a : Actor) : RangeOf (queueOf u) fAccDur a 0 (qAll (queueOf u) fAccDur a 0) (·.duration)
+    (fun l => l.isUnlocking == u && l.owner == a) := by
+  cases u <;> ref_range
+
+theorem range_denomLonger (u : Bool) (d k : Nat) : RangeOf (queueOf u) fDenomDur 0 d (qLonger (queueOf u) fDenomDur 0 d k)
+    (·.duration) (fun l => l.isUnlocking == u && l.denom == d && decide (k ≤ l.duration)) := by
+  cases u <;> ref_range
+
+theorem range_accBefore (a : Actor) (now : Nat) : RangeOf (queueOf true) fAccTime a 0 (qBefore (queueOf true) fAccTime a 0 now)
+    (fun l => timeKey l.endTime) (fun l => l.owner == a && matured now l) := by
+  ref_range
+
+theorem range_accAfter (a : Actor) (now : Nat) : RangeOf (queueOf true) fAccTime a 0 (qAfter (queueOf true) fAccTime a 0 now)
+    (fun l => timeKey l.endTime) (fun l => l.owner == a && l.isUnlocking && !matured now l) := by
+  ref_range
+
+
+theorem walk_range {locks : List Lock} {refs : Refs} (h : RefsOk locks refs) (hn : (locks.map (·.id)).Nodup)
+    {Q F a d : Nat} {q : RefK → Bool} {key : Lock → Nat} {P : Lock → Bool} (hr : RangeOf Q F a d q key P) :
+    getLocksFromIterator locks (walk refs q) = some (sortBy (keyLt key) (locks.filter P)) :=
+  walk_eq_sorted h hn Q F a d q key P hr.inside hr.only hr.all
+
+/-! ### sums over a filtered, sorted lock list -/
+
+theorem total_filter' (P Q : Lock → Bool) : ∀ (ls : List Lock), total Q (ls.filter P) = total (fun l => P l && Q l) ls
+  | [] => rfl
+  | l :: ls => by
+    rw [List.filter_cons]
+    cases hP : P l <;> simp [total, hP, total_filter' P Q ls]
+
+theorem coinsOf_sorted (lt : Lock → Lock → Bool) (P : Lock → Bool) (ls : List Lock) (d : Denom) :
+    coinsOf (sortBy lt (ls.filter P)) d = total (fun l => P l && l.denom == d) ls := by
+  unfold coinsOf
+  rw [total_perm _ (sortBy_perm lt _), total_filter']
+
+theorem total_split3 {A B C : Lock → Bool}
+    (h : ∀ l : Lock, (if A l then l.amount else 0) + (if B l then l.amount else 0) = if C l then l.amount else 0) :
+    ∀ (ls : List Lock), total A ls + total B ls = total C ls
+  | [] => rfl
+  | l :: ls => by
+    have := h l
+    have := total_split3 h ls
+    simp only [total]
+    omega
+
+/-! ### the list-based answers -/
+
+/-- `GetAccountPeriodLocks` on the lock list: the owner's not-unlocking locks, then the unlocking ones,
+    each in (duration, id) order -/
+def accountPeriodLocks (ls : List Lock) (a : Actor) : List Lock :=
+  sortBy refLt (ls.filter (fun l => !l.isUnlocking && l.owner == a)) ++
+  sortBy refLt (ls.filter (fun l => l.isUnlocking && l.owner == a))
+
+/-- `GetLocksLongerThanDurationDenom` on the lock list -/
+def locksLongerThanDurationDenom (ls : List Lock) (d : Denom) (k : Nat) : List Lock :=
+  sortBy refLt (ls.filter (fun l => !l.isUnlocking && l.denom == d && decide (k ≤ l.duration))) ++
+  sortBy refLt (ls.filter (fun l => l.isUnlocking && l.denom == d && decide (k ≤ l.duration)))
+
+theorem unl_false_eq : (fun l : Lock => l.isUnlocking == false) = (fun l => !l.isUnlocking) := by
+  funext l; simp
+theorem unl_true_eq : (fun l : Lock => l.isUnlocking == true) = (fun l => l.isUnlocking) := by
+  funext l; simp
+
+/-- **`GetPeriodLocks` by the reference walks = the list `periodLocks`** -/
+theorem periodLocksR_list {rs : RState} (h : RefsOk rs.s.locks rs.refs) (hn : (rs.s.locks.map (·.id)).Nodup) :
+    periodLocksR rs = some (periodLocks rs.s.locks) := by
+  unfold periodLocksR periodLocks
+  rw [walk_range h hn (range_dur true), walk_range h hn (range_dur false), unl_false_eq, unl_true_eq]
+  rfl
+
+theorem accountPeriodLocksR_list {rs : RState} (h : RefsOk rs.s.locks rs.refs) (hn : (rs.s.locks.map (·.id)).Nodup)
+    (a : Actor) : accountPeriodLocksR rs a = some (accountPeriodLocks rs.s.locks a) := by
+  unfold accountPeriodLocksR accountPeriodLocks
+  rw [walk_range h hn (range_accDur true a), walk_range h hn (range_accDur false a)]
+  simp only [beq_false, beq_true]
+  rfl
+
+theorem locksLongerThanDurationDenomR_list {rs : RState} (h : RefsOk rs.s.locks rs.refs)
+    (hn : (rs.s.locks.map (·.id)).Nodup) (d : Denom) (k : Nat) :
+    locksLongerThanDurationDenomR rs d k = some (locksLongerThanDurationDenom rs.s.locks d k) := by
+  unfold locksLongerThanDurationDenomR locksLongerThanDurationDenom
+  rw [walk_range h hn (range_denomLonger true d k), walk_range h hn (range_denomLonger false d k)]
+  simp only [beq_false, beq_true]
+  rfl
+
+/-- **`GetAccountUnlockableCoins`** = Σ amount of the owner's matured locks of the denom -/
+theorem accountUnlockableCoinsR_sum {rs : RState} (h : RefsOk rs.s.locks rs.refs) (hn : (rs.s.locks.map (·.id)).Nodup)
+    (a : Actor) (d : Denom) :
+    accountUnlockableCoinsR rs a d
+      = some (total (fun l => (l.owner == a && matured rs.s.now l) && l.denom == d) rs.s.locks) := by
+  unfold accountUnlockableCoinsR
+  rw [walk_range h hn (range_accBefore a rs.s.now), Option.map_some, coinsOf_sorted]
+
+/-- **`GetAccountUnlockingCoins`** = Σ amount of the owner's unlocking, not yet matured locks of the denom -/
+theorem accountUnlockingCoinsR_sum {rs : RState} (h : RefsOk rs.s.locks rs.refs) (hn : (rs.s.locks.map (·.id)).Nodup)
+    (a : Actor) (d : Denom) :
+    accountUnlockingCoinsR rs a d
+      = some (total (fun l => (l.owner == a && l.isUnlocking && !matured rs.s.now l) && l.denom == d) rs.s.locks) := by
+  unfold accountUnlockingCoinsR
+  rw [walk_range h hn (range_accAfter a rs.s.now), Option.map_some, coinsOf_sorted]
+
+/-- **`GetAccountLockedCoins`** = Σ amount of the owner's locks of the denom that are not matured
+    (not unlocking, or unlocking with the end time still ahead) -/
+theorem accountLockedCoinsR_sum {rs : RState} (h : RefsOk rs.s.locks rs.refs) (hn : (rs.s.locks.map (·.id)).Nodup)
+    (a : Actor) (d : Denom) :
+    accountLockedCoinsR rs a d
+      = some (total (fun l => l.owner == a && l.denom == d && !matured rs.s.now l) rs.s.locks) := by
+  unfold accountLockedCoinsR
+  rw [accountUnlockingCoinsR_sum h hn, walk_range h hn (range_accDur false a)]
+  dsimp only
+  rw [coinsOf_sorted]
+  simp only [Option.some.injEq]
+  apply total_split3
+  intro l
+  obtain ⟨id, ow, du, et, dn, am, gh⟩ := l
+  cases et <;> cases h1 : (ow == a) <;> cases h2 : (dn == d) <;> simp [matured, Lock.isUnlocking, h1, h2]
+
+/-! ### the reference keys of one lock are pairwise distinct -/
+
+theorem mkRef_injective (q id : Nat) : Function.Injective (fun k : RefKey => mkRef q k id) :=
+  fun _ _ h => mkRef_inj h
+
+theorem lockRefs_nodup (l : Lock) : (lockRefs l).Nodup := by
+  unfold lockRefs
+  exact List.Pairwise.map _ (fun a b hab hc => hab (mkRef_inj hc)) (refKeysOf_nodup l)
+
+theorem lockRefs_length (l : Lock) : (lockRefs l).length = if l.isUnlocking then 8 else 4 := by
+  unfold lockRefs refKeysOf lockRefKeys durationLockRefKeys
+  split <;> simp
+
 end DymVerif.Lockup
